@@ -173,6 +173,8 @@ func (s *Server) Run(addr string, opt ...Option) error {
 		connID++
 		select {
 		case <-s.shutdownCtx.Done():
+			// Stop may have run before the listener existed: release the port
+			_ = s.listener.Close()
 			return nil
 		default:
 			// need a default to fall through to rest of loop...
